@@ -95,10 +95,15 @@ def emit_all(emit) -> None:
         params = [x.arg for x in fdef.args.args]
         if params != ["length", a, b]:
             raise TranslateError(f"{name}: parameters {params} are not (length, {a}, {b})")
+        tokens = _Translator(name, params).body(fdef.body)
+        if not ({"log", "int", "ceil", "brentq", "call", "def"} & set(tokens)):
+            # a closed-form relation (no numeric library step): sums and products are compared up to the order of their
+            # operands (exact and float `+`, `*` are commutative), so `a * b` rewritten as `b * a` is the same tree
+            tokens = _Translator(name, params, canon=True).body(fdef.body)
         emit(
             f"c03Body_{o}__{a}__{b}",
             "List String",
-            _Translator(name, params).body(fdef.body),
+            tokens,
             f"body of `{name}` (guards, branches, expressions, numeric library calls) as prefix tokens of the statement tree",
         )
 
@@ -170,8 +175,9 @@ class _Translator:
     BIN = {"Add": "+", "Sub": "-", "Mult": "*", "Div": "/", "Pow": "**"}
     CMP = {"Lt": "<", "LtE": "<=", "Gt": ">", "GtE": ">=", "Eq": "==", "NotEq": "!="}
 
-    def __init__(self, where, params, rename=()):
+    def __init__(self, where, params, rename=(), canon=False):
         self.where = where
+        self.canon = canon         # operands of `+` and `*` in canonical (token) order: a commuted sum / product is the same tree
         self.params = set(params)
         self.ren = {}              # source name of a local / local function / its parameter -> v0, v1, …
         for p in rename:           # parameters whose names carry no meaning (validators)
@@ -228,7 +234,10 @@ class _Translator:
             op = self.BIN.get(type(e.op).__name__)
             if op is None:
                 self.fail(e, "unsupported operator")
-            return [op] + self.expr(e.left) + self.expr(e.right)
+            left, right = self.expr(e.left), self.expr(e.right)
+            if self.canon and op in ("+", "*") and right < left:
+                left, right = right, left
+            return [op] + left + right
         if isinstance(e, ast.Call):
             if e.keywords:
                 self.fail(e, "keyword arguments")
